@@ -394,7 +394,9 @@ fn case(rt: &mut tokio::runtime::Runtime, rng: &mut Rng, ctx: &mut Ctx) {
             rng.pick(&["", ".", "nope", "p0", "p0.q", "org", "x.In", "grpc", "M1", "..", "p0."]).to_string()
         } else {
             let n = rng.pick(&names).clone();
-            match rng.below(7) {
+            match rng.below(9) {
+                7 => format!("{}.nope", n),
+                8 => format!("{}.{}", n, n.rsplit('.').next().unwrap_or("x")),
                 0 => format!("{}x", n),
                 1 => n[..n.len() - 1].to_string(),
                 2 => format!("{}.", n),
